@@ -135,3 +135,67 @@ def share(ctx, rep, modname, take, as_rule, floor=None):
     if floor is not None:
         rep.floor(as_rule, "obligations shared from %s" % modname.upper(), n, floor)
     return n
+
+
+class LabelModel:
+    """partial evaluation of a dispatch-on-constant function (Connection._unbox by label, Connection._dispatch by message
+    kind): for every constant of interest and for an unknown value, the sub-CFG that can execute."""
+    def __init__(self, ctx, qual, source_param_index, slot, values):
+        from .. import cfgq as Q
+        self.ctx = ctx
+        self.f = ctx.func(qual)
+        self.g = ctx.cfg(self.f)
+        prm = A.params(self.f.node)
+        self.src = prm[source_param_index]
+        # the local bound to element `slot` of the destructured source
+        self.var = None
+        self.unpack = None
+        self.names = None
+        for n in A.walk(self.f.node):
+            if isinstance(n, ast.Assign) and isinstance(n.targets[0], ast.Tuple) and all(
+                    isinstance(e, ast.Name) for e in n.targets[0].elts) and (
+                    (isinstance(n.value, ast.Name) and n.value.id == self.src) or self.src in A.names_loaded(n.value)):
+                self.names = [e.id for e in n.targets[0].elts]
+                if slot < len(self.names):
+                    self.var = self.names[slot]
+                    self.unpack = n
+                break
+        if self.var is None:
+            raise AnalysisError("%s no longer destructures its input into locals" % qual)
+        self.values = dict(values)
+        self.values["<other>"] = object()
+        self.sub = {}
+        for name, v in self.values.items():
+            dec = Q.var_const_decider(lambda e: ctx.try_fold(e), self.var, v)
+            ok = Q.valuation_edges(dec)
+            nodes = Q.reach_ef([self.g.entry], lambda a, b, l, ok=ok: l != "exc" and ok(a, b, l))
+            self.sub[name] = (ok, nodes)
+
+    def edge_ok(self, name):
+        ok = self.sub[name][0]
+        return lambda a, b, l: l != "exc" and ok(a, b, l)
+
+    def nodes(self, name):
+        return self.sub[name][1]
+
+    def returns(self, name):
+        return [n for n in self.nodes(name) if n.kind == "stmt" and isinstance(n.ast, ast.Return)]
+
+    def raises(self, name):
+        return [n for n in self.nodes(name) if n.kind == "stmt" and isinstance(n.ast, ast.Raise)]
+
+
+def unbox_model(ctx):
+    m = getattr(ctx, "_unbox_model", None)
+    if m is None:
+        vals = {n: ctx.const("rpyc.core.consts", n) for n in ("LABEL_VALUE", "LABEL_TUPLE", "LABEL_LOCAL_REF", "LABEL_REMOTE_REF")}
+        m = ctx._unbox_model = LabelModel(ctx, CONN + "._unbox", 1, 0, vals)
+    return m
+
+
+def dispatch_model(ctx):
+    m = getattr(ctx, "_dispatch_model", None)
+    if m is None:
+        vals = {n: ctx.const("rpyc.core.consts", n) for n in ("MSG_REQUEST", "MSG_REPLY", "MSG_EXCEPTION")}
+        m = ctx._dispatch_model = LabelModel(ctx, CONN + "._dispatch", 1, 0, vals)
+    return m
